@@ -701,6 +701,9 @@ def _fn(body_item):
     return ("void f(int x, int y){", body_item, " ", "}")
 
 
+# families the pinned tree rejects (not C99); a tree that accepts them must keep them linear
+MAY_BE_REJECTED = {"distinct_knr_implicit_int_list"}
+
 REPEATABLE = {
     # -- declarations, one kind each ---------------------------------------
     "decl_var": ("", lambda i: f"int v{i};", " ", ""),
